@@ -17,7 +17,7 @@ from vf.runner import digest
 ID = "C19"
 LEVEL = "model_checking"
 RULE = (
-    "BFS from four initial states (irregular cell with Na+K on overlapping branch sets; same cell with HH on a subset; 2-cell network "
+    "BFS from five initial states (a cell with one uniform channel on which set_ncomp is accepted, with groups; irregular cell with Na+K on overlapping branch sets; same cell with HH on a subset; 2-cell network "
     "with two synapse types; 2-cell network whose cells carried different channel sets before assembly) over the operation alphabet {insert/delete of channels sharing columns, set, set_ncomp, add_to_group, "
     "record, delete_recordings, stimulate, clamp, delete_stimuli, delete_clamps, make_trainable, delete_trainables, connect, init_states} "
     "on small views, depth 2 (quick) / 3 (thorough); replay from scratch per history; canonical snapshot hashing merges commuting "
@@ -56,6 +56,21 @@ def _cell_hh():
     c.branch([0, 2]).insert(HH())
     c.insert(Leak())
     c.branch(1).add_to_group("g")
+    return c
+
+
+def _cell_uni():
+    """One channel everywhere with uniform values, so that set_ncomp is accepted on every branch (it refuses branches whose channel
+    columns are not uniform); a group on a whole branch and on part of another, and per-branch radii."""
+    from jaxley.channels import HH
+
+    c = build.cell_of([-1, 0, 0], [2, 2, 3])
+    c.insert(HH())
+    for b, r in enumerate([1.5, 0.8, 1.1]):
+        c.branch(b).set("radius", r)
+    c.branch(1).add_to_group("g")
+    c.branch(2).comp(0).add_to_group("g")
+    c.branch(0).add_to_group("h")
     return c
 
 
@@ -101,7 +116,7 @@ def _net_het():
     return net
 
 
-INITS = {"cell_nak": _cell_nak, "cell_hh": _cell_hh, "net2": _net2, "net_het": _net_het}
+INITS = {"cell_nak": _cell_nak, "cell_hh": _cell_hh, "net2": _net2, "net_het": _net_het, "cell_uni": _cell_uni}
 
 
 def _j():
@@ -215,6 +230,15 @@ OPS["h_train_gLeak_c0"] = lambda m: m.cell(0).make_trainable("Leak_gLeak", verbo
 _HET = [k for k in OPS if k.startswith("h_")] + ["n_set_rad_c1b0", "n_group_c0", "n_rec_v_c1", "n_delrec_all", "n_stim_c0", "n_clamp_v_c1b1",
                                                  "n_delclamp_all", "n_deltrain_all", "n_init_states", "n_connect_I"]
 
+OPS["u_ncomp_b0_3"] = lambda m: m.branch(0).set_ncomp(3)
+OPS["u_ncomp_b0_1"] = lambda m: m.branch(0).set_ncomp(1)
+OPS["u_ncomp_b1_1"] = lambda m: m.branch(1).set_ncomp(1)
+OPS["u_ncomp_b1_4"] = lambda m: m.branch(1).set_ncomp(4)
+OPS["u_ncomp_b2_2"] = lambda m: m.branch(2).set_ncomp(2)
+OPS["u_ncomp_b2_4"] = lambda m: m.branch(2).set_ncomp(4)
+_UNI = [k for k in OPS if k.startswith("u_")] + ["group_b0", "group_b2c2", "rec_v_b2", "delrec_all", "stim_b0c0", "stim_b2", "clamp_v_b1", "delstim_b2",
+                                                 "delclamp_b1", "train_rad_branches", "deltrain_b0", "init_states", "set_v_b0", "rec_HHm_b0c1"]
+
 _CELL_COMMON = ["ins_Leak_b0", "ins_Km_all", "ins_CaL_b2", "ins_CaT_b2c0", "set_rad_b2c1", "set_v_b0", "ncomp_b1_2", "ncomp_b2_1",
                 "group_b0", "group_b2c2", "rec_v_b2", "delrec_all", "delrec_b2", "stim_b0c0", "stim_b2", "clamp_v_b1", "delstim_all",
                 "delstim_b2", "delclamp_all", "delclamp_b1", "train_rad_branches", "deltrain_all", "deltrain_b0", "init_states",
@@ -225,6 +249,7 @@ OPS_FOR = {
     "cell_hh": _CELL_COMMON + ["ins_HH_b1", "del_HH_b1", "del_HH_all", "rec_HHm_b0c1"],
     "net2": [k for k in OPS if k.startswith("n_")],
     "net_het": _HET,
+    "cell_uni": _UNI,
 }
 UNDOES = {
     "del_Km_all": "ins_Km_all", "del_CaL_b2": "ins_CaL_b2", "del_CaT_b2c0": "ins_CaT_b2c0", "del_HH_b1": "ins_HH_b1",
@@ -341,6 +366,9 @@ def invariants(m, hist, parent_hash=None, hash_=None, item=None):
     # I11 connect appends rows: the rows that existed before keep everything that was set on them
     if hist and "connect" in hist[-1] and item is not None:
         errs += _connect_frame(item["init"], hist[:-1], m)
+    # I12 set_ncomp keeps every group on the branches it was on (groups are stored as row numbers and must be shifted)
+    if hist and "ncomp" in hist[-1] and item is not None and m.groups:
+        errs += _groups_after_set_ncomp(item["init"], hist[:-1], m)
     # I7 deletions undo their insertions
     if len(hist) >= 2 and UNDOES.get(hist[-1]) == hist[-2] and item is not None:
         gp = _grandparent_hash(item["init"], hist[:-2])
@@ -399,6 +427,35 @@ def _confined_channel_delete(op, init, parent_hist, m):
         if not np.array_equal(before, after, equal_nan=True):
             bad = [outside[j] for j in np.where(~((before == after) | (np.isnan(before) & np.isnan(after))))[0]]
             errs.append(("I10_confined_channel_delete", "rows_outside_view_changed", f"{col} (deleting {name}) changed on rows {bad} outside the view {sorted(rows)}"))
+    return errs
+
+
+def _groups_after_set_ncomp(init, parent_hist, m):
+    import sys
+
+    mod = sys.modules[__name__]
+    parent = explorer.replay(mod, init, parent_hist)
+
+    def per_branch(mm):
+        nd = mm.nodes
+        out = {}
+        for g, v in mm.groups.items():
+            rows = [int(i) for i in np.asarray(v) if 0 <= int(i) < len(nd)]
+            cnt = collections.Counter(int(nd.loc[i, "global_branch_index"]) for i in rows)
+            full = {b: int((nd["global_branch_index"] == b).sum()) for b in cnt}
+            out[g] = {b: ("whole" if cnt[b] == full[b] else "part") for b in cnt}
+        return out
+
+    before, after = per_branch(parent), per_branch(m)
+    changed = [b for b, (x, y) in enumerate(zip(parent.ncomp_per_branch, m.ncomp_per_branch)) if x != y]
+    errs = []
+    for g in before:
+        want = dict(before[g])
+        for b in changed:
+            if b in want:
+                want[b] = "whole"  # a group containing (part of) the modified branch contains all of its new compartments
+        if after.get(g) != want:
+            errs.append(("I12_groups_after_set_ncomp", "group_moved_to_other_rows", f"group {g}: branches {after.get(g)} expected {want}"))
     return errs
 
 
